@@ -408,6 +408,11 @@ void run_copies(RunCtx& cx) {
         if (how == 7) {
             // "assign the reader's return value"
             rcpy.reset(new CDNS::CdnsBlockRead());
+            if (mix_str(cx.seed, "prefill7") & 1) {
+                cx.tag("assign-onto-non-empty-block");
+                Rng q(mix_str(cx.seed, "prefill"));
+                for (unsigned i = 0; i < 12; i++) { gen::RecGen g(sw, q.next()); rcpy->add_question_response_record(g.qr(tps)); rcpy->add_ip_address("prefill-" + std::to_string(i)); rcpy->add_name_rdata("prefill-name-" + std::to_string(i)); }
+            }
             *rcpy = reader->read_block(eof);
         } else {
             rsrc.reset(new CDNS::CdnsBlockRead(reader->read_block(eof)));
@@ -427,15 +432,32 @@ void run_copies(RunCtx& cx) {
         CDNS::CdnsBlockRead fresh = rd2.read_block(eof);
         want = block_content(fresh, sets, "want", cx);
     }
+    // the target of an assignment often is a block that already holds other (more) data — e.g. a block variable reused in a read loop
+    bool do_prefill = r.coin();
+    auto prefill = [&](CDNS::CdnsBlock& b) {
+        if (!do_prefill) return;
+        cx.tag("assign-onto-non-empty-block");
+        cx.ctr->add("probe.assignment_onto_non_empty_block");
+        Rng q(mix_str(cx.seed, "prefill"));
+        unsigned n = (unsigned)q.range(3, 25);
+        for (unsigned i = 0; i < n; i++) {
+            gen::RecGen g(sw, q.next());
+            b.add_question_response_record(g.qr(tps));
+            b.add_ip_address("prefill-" + std::to_string(i));
+            b.add_name_rdata("prefill-name-" + std::to_string(i));
+            if (i % 3 == 0) b.add_address_event_count(g.aec());
+            if (i % 4 == 0) b.add_malformed_message(g.mm(tps));
+        }
+    };
     // ---- make the second block ------------------------------------------------------------------------------
     switch (how) {
         case 0: cpy.reset(new CDNS::CdnsBlock(*S)); break;
         case 1: { std::string before = want; cpy.reset(new CDNS::CdnsBlock(std::move(*S))); break; }
-        case 2: cpy.reset(new CDNS::CdnsBlock(sets[0], 0)); *cpy = *S; break;
-        case 3: cpy.reset(new CDNS::CdnsBlock(sets[0], 0)); *cpy = std::move(*S); break;
+        case 2: cpy.reset(new CDNS::CdnsBlock(sets[0], 0)); prefill(*cpy); *cpy = *S; break;
+        case 3: cpy.reset(new CDNS::CdnsBlock(sets[0], 0)); prefill(*cpy); *cpy = std::move(*S); break;
         case 4: rcpy.reset(new CDNS::CdnsBlockRead(*rsrc)); break;
         case 5: rcpy.reset(new CDNS::CdnsBlockRead(std::move(*rsrc))); break;
-        case 6: rcpy.reset(new CDNS::CdnsBlockRead()); *rcpy = *rsrc; break;
+        case 6: rcpy.reset(new CDNS::CdnsBlockRead()); prefill(*rcpy); *rcpy = *rsrc; break;
         default: break;
     }
     CDNS::CdnsBlock* C = rcpy ? static_cast<CDNS::CdnsBlock*>(rcpy.get()) : cpy.get();
